@@ -341,6 +341,20 @@ J("ex.parse_options", ["C20"], "h_ex_options.c", "h_parse_options", enforce="par
   must_have=LC + PC, replay="tools", timeout=1800,
   note="getopt replaced by its model (any option sequence, unbounded); returns 1 only with block size 8/16, key length within the LIBRARY's range for the tool's mode, counter/tweak length 1..block, both file names taken from argv")
 
+for (tag, d, fl, B, LANES, EFN) in (("s128a", "CT_SIMD_S128A", ["-msse2"], 16, 4, "skinny128_ecb_encrypt_four"), ("s128b", "CT_SIMD_S128B", ["-mavx2"], 16, 8, "skinny128_ecb_encrypt_eight"),
+                                ("s64", "CT_SIMD_S64", ["-msse2"], 8, 8, "skinny64_ecb_encrypt_eight"), ("m", "CT_SIMD_M", ["-msse2"], 8, 8, "mantis_ecb_encrypt_eight")):
+    J("ct.simd_%s.increment" % tag, ["C08"], "h_ct_simd.c", "h_ct_increment", loops=False, unwind=B + 2, defs=[d + "=1"], cflags=fl, must_have=_CT,
+      functions=["lane counter increment (%s)" % tag], timeout=1800, note="public: lane and increment; secret: all lane counters")
+    for n in (1, B):
+        J("ct.simd_%s.set_counter.len%d" % (tag, n), ["C08"], "h_ct_simd.c", "h_ct_set_counter", loops=False, unwind=B + 4, defs=[d + "=1", "CT_LEN=%d" % n], cflags=fl,
+          must_have=_CT, functions=["SIMD set_counter (%s)" % tag], timeout=1800, tier="quick" if n == 1 else "thorough")
+    BATCH = B * LANES
+    for (n, off) in ((1, 5), (BATCH + 1, BATCH), (B + 3, BATCH - 2)):
+        J("ct.simd_%s.encrypt.len%d.off%d" % (tag, n, off), ["C08"], "h_ct_simd.c", "h_ct_encrypt", loops=False, unwind=BATCH + 6, defs=[d + "=1", "CT_LEN=%d" % n, "CT_OFF=%d" % off],
+          cflags=fl, must_have=_CT, strip_bodies=[EFN], functions=["SIMD CTR encrypt loop (%s)" % tag], timeout=2400,
+          tier="quick" if (n, off) == (BATCH + 1, BATCH) and tag in ("s128a", "s64") else "thorough",
+          bounded="call size %d, buffer offset %d (representative pair); vector block function body removed" % (n, off))
+
 
 # ------------------------------------------------------------------ loop handling policy
 # Jobs whose enforced function (with its inlined callees) carries NO loop contract are run WITHOUT
@@ -374,7 +388,10 @@ for (w, u, e) in _cfgs:
         b = [j for j in JOBS if j.id == bid][0]
         nj = _copy.copy(b)
         nj.id = bid + tag
-        nj.props = ["C12"]
+        # the same obligations are part of the conformance properties' THOROUGH tier (a fault that exists only on a
+        # non-default compile-time path breaks C01/C02/C03 in that build); every-change tier: C12 only
+        nj.props = ["C12"] + (["C01", "C03"] if bid.startswith(("s128.", "s64.")) else ["C02", "C03"] if bid.startswith("m.") else ["C05"])
+        nj.quick_only_for = {"C12"}
         nj.defs = list(b.defs) + dfs
         nj.tier = "quick" if (w, u, e) in _quick_cfgs and not bid.endswith("set_tk1") else "thorough"
         nj.note = (b.note + "; " if b.note else "") + "configuration 64BIT=%d UNALIGNED=%d LITTLE_ENDIAN=%d" % (w, u, e)
@@ -412,6 +429,9 @@ for _j in JOBS:
     if _re.match(r"^pv\w+\.|^v\w+\.(eblock|encrypt)$|\.def_encrypt$", _j.id):
         # the slow vector / coverage proofs: every-change tier only for the properties they carry
         _j.quick_only_for = {"C07", "C05"}
+    if _j.id in ("v128b.eblock", "pv128b.encrypt", "pv128b.decrypt"):
+        _j.mem_gb = 40          # 8 lanes x 4 interleaved vectors: runs alone with a 40 GB limit
+        _j.timeout = 7200
     if _j.id == "pv128a.encrypt":
         _j.tier = "thorough"   # 8.5 min on one core (sbox_four interleaves four vectors); its decrypt twin and the other ciphers' vector functions stay in quick
 
